@@ -39,6 +39,22 @@ func genC10(rt *rapid.T, params harness.GenParams) *harness.Program {
 			tx(harness.Op{K: harness.OpFreeMany, A: rapid.IntRange(0, 12).Draw(rt, "start"), B: rapid.SampledFrom([]int{254, 255, 256, 300}).Draw(rt, "cnt"), C: 1}),
 			reopen())
 	}
+	if prog.Cfg.MaxPages > 0 && rapid.IntRange(0, 5).Draw(rt, "overflowScenario") == 0 {
+		// a completely full file whose metadata lives in the overflow area, which is then released again
+		otx := func(ops ...harness.Op) harness.Item {
+			return harness.Item{Tx: &harness.Tx{Overflow: true, Ops: ops, End: harness.EndCommit}}
+		}
+		prog.Items = append(prog.Items,
+			tx(harness.Op{K: harness.OpFill, A: 0}),
+			otx(harness.Op{K: harness.OpWriteMany, A: rapid.IntRange(0, 63).Draw(rt, "opick"), B: rapid.IntRange(1, 10).Draw(rt, "ocount"), C: 31},
+				harness.Op{K: harness.OpFreeMany, A: rapid.IntRange(0, 63).Draw(rt, "fpick"), B: rapid.IntRange(0, 4).Draw(rt, "fcount"), C: 2}),
+			reopen(),
+			otx(harness.Op{K: harness.OpFreeMany, A: rapid.IntRange(0, 63).Draw(rt, "fpick2"), B: rapid.IntRange(1, 30).Draw(rt, "fcount2"), C: 1},
+				harness.Op{K: harness.OpCheckpoint}),
+			reopen(),
+			tx(harness.Op{K: harness.OpAlloc, A: rapid.IntRange(1, 6).Draw(rt, "an")}, harness.Op{K: harness.OpWriteMany, A: 0, B: 3, C: 32}),
+			reopen())
+	}
 	n := rapid.IntRange(2, params.MaxItems).Draw(rt, "n")
 	for i := 0; i < n; i++ {
 		it := harness.GenItem(rt, params)
